@@ -330,27 +330,54 @@ fn c07_put_client_step_for(q: usize) {
         assert!(cek::vk_ack_ptr(&c.command_executor, 0) == Some(Arc::as_ptr(&ack)), "C11: the caller holds the acknowledgement of exactly the queued command");
     }
     assert!(world_matches(&w, &keys), "C07: the caller's side of a put never changes value, weight or expiry of any key");
-    // C05 end to end: if a put was queued although the key is still physically held (expired-unswept or
-    // soft-deleted), let the worker apply it and check the accounting at quiescence
-    if present && qlen == 1 {
-        cek::vk_run_worker(w.worker);
-        let cw = apk::vk_cw(&c.admission_policy);
-        let mut sum: i128 = 0;
-        let mut i = 0;
-        while i < POOL {
-            if let Some(sv) = sk::vk_peek(&c.store, &sk::key_of(i)) {
-                let charged = cwk::vk_entry(cw, sv.key_id());
-                assert!(charged.is_some(), "C05: every held key is charged under the id its store entry carries");
-                sum += charged.map(|x| x.2).unwrap_or(0) as i128;
-            }
-            i += 1;
-        }
-        assert!(c.total_weight_used() as i128 == sum, "C05: at quiescence the total equals the sum of the weights of exactly the held keys (no weight stays charged for a replaced entry)");
-    }
     // covers are guarded by the (concrete) shape of the target key so that each family member satisfies them on its own
     kani::cover!(!present || (readable && variant == 3), "existing key, weight+ttl variant");
     kani::cover!(present || variant == 2, "absent key, ttl variant");
     kani::cover!(!present || keys[q].e.soft_deleted, "soft-deleted, delete not yet applied");
+    vs::edge_covers();
+    core::mem::forget(w);
+}
+
+/// C05/C07 / P2 (end to end, small concrete world): a put of a key that is past its TTL but not yet swept, or
+/// soft-deleted with its Delete pending.  Whatever the caller's side decides (today: rejected, finding F4), once the
+/// worker has applied what was queued the accounting must hold: total == sum of the weights of exactly the held
+/// keys, every held key charged under the id its store entry carries.  One held TTL key of weight 10, limit 1000,
+/// incoming weight 5 (concrete: no memory pressure, the eviction path plays no role here).
+#[kani::proof] #[kani::unwind(6)] fn c05_put_of_expired_unswept_key() { put_of_unreadable_held_key(false, false); }
+#[kani::proof] #[kani::unwind(6)] fn c05_put_ttl_of_expired_unswept_key() { put_of_unreadable_held_key(true, false); }
+#[kani::proof] #[kani::unwind(6)] fn c05_put_of_soft_deleted_key() { put_of_unreadable_held_key(false, true); }
+/// put variant and the reason the key is unreadable are CONCRETE per harness (expired: tick at second 6000 against an
+/// expiry in second 5000, any nanoseconds; or soft-deleted): whether the put gets queued must be a constant for CBMC -
+/// a conditionally queued command has a symbolic discriminant and the worker would explore every command arm
+fn put_of_unreadable_held_key(ttl_variant: bool, soft_deleted: bool) {
+    let mut keys = shaped_keys(Shape { present: [true, false, false], ttl: [true, false, false] });
+    keys[0].weight = 10;
+    keys[0].e.soft_deleted = soft_deleted;
+    let mut __qs = cek::vk_slots();
+    let w = vk_world(2, plain_lfu());
+    cek::vk_attach(&w.cache.command_executor, &mut __qs);
+    install(&w, 0, &keys[0]);
+    set_limits(&w, 1000, 10);
+    let now = if soft_deleted { any_now() } else { let n = (6000u64, sup::any_nanos()); sup::set_now(n.0, n.1); n };
+    assert!(!sk::readable(&keys[0].e, now), "harness: the key is unreadable");
+    let c = &w.cache;
+    let v: u64 = kani::any();
+    // the put variant is concrete per harness: a queued command whose kind is symbolic makes CBMC explore the eviction path
+    let ack = hold(if !ttl_variant { c.put_with_weight(101, v, 5) } else { c.put_with_weight_and_ttl(101, v, 5, Duration::from_secs(30)) });
+    let queued = cek::vk_queue_len(&c.command_executor);
+    assert!(queued <= 1, "C11: at most one command per call");
+    if queued == 1 {
+        cek::vk_run_worker(w.worker);
+        assert!(status_of(&ack) != Poll::Pending, "C12: the worker acknowledged the put");
+    }
+    let cw = apk::vk_cw(&c.admission_policy);
+    let held = sk::vk_peek(&c.store, &101);
+    let expected_total: Weight = match held { Some(sv) => cwk::vk_entry(cw, sv.key_id()).map(|x| x.2).unwrap_or(-1), None => 0 };
+    assert!(expected_total >= 0, "C05: every held key is charged under the id its store entry carries");
+    assert!(c.total_weight_used() == expected_total, "C05: at quiescence the total equals the sum of the weights of exactly the held keys (no weight stays charged for a replaced entry)");
+    assert!(cwk::vk_len(cw) == if held.is_some() { 1 } else { 0 }, "C05: no id stays charged without a held key");
+    kani::cover!(queued == 1, "opt: the put of an unreadable but still held key was queued");
+    kani::cover!(true, "end reached");
     vs::edge_covers();
     core::mem::forget(w);
 }
@@ -576,6 +603,67 @@ fn c08_put_or_update_step_for(q: usize, kind: Option<u8>) {
     kani::cover!(!present || (upd && (!c_had || kind != Some(1) || (ttl.is_some() && Some(add_ttl(now, t).0 % 2) != c_par))), "TTL change moves the entry to the other index shard");
     kani::cover!(present || (ttl.is_some() && weight.is_none()), "absent key, TTL put with computed weight");
     kani::cover!(!present || (!readable && keys[q].e.soft_deleted), "upsert of a soft-deleted key");
+    vs::edge_covers();
+    core::mem::forget(w);
+}
+
+/// C08 / P3 (small concrete world): put_or_update on a READABLE key held with concrete weight 50 (with or without a
+/// TTL, concrete per harness), limit 1000; the request's TTL part is concrete per harness (untouched / new TTL / remove),
+/// value and explicit weight are symbolic options.  Checked: value and expiry change exactly as requested and are visible
+/// on return, the expiry index follows, and the weight update that is queued carries EXACTLY the weight the property
+/// prescribes: the explicit weight if one was given; else recomputed from a new value; else the old weight +- the
+/// expiry-entry size when a TTL was added / removed; else nothing is queued and the call is accepted on the spot.
+#[kani::proof] #[kani::unwind(6)] fn c08_upsert_plain_key_ttl_untouched() { upsert_small_world(false, 0); }
+#[kani::proof] #[kani::unwind(6)] fn c08_upsert_plain_key_ttl_added() { upsert_small_world(false, 1); }
+#[kani::proof] #[kani::unwind(6)] fn c08_upsert_plain_key_ttl_removed() { upsert_small_world(false, 2); }
+#[kani::proof] #[kani::unwind(6)] fn c08_upsert_ttl_key_ttl_untouched() { upsert_small_world(true, 0); }
+#[kani::proof] #[kani::unwind(6)] fn c08_upsert_ttl_key_ttl_changed() { upsert_small_world(true, 1); }
+#[kani::proof] #[kani::unwind(6)] fn c08_upsert_ttl_key_ttl_removed() { upsert_small_world(true, 2); }
+fn upsert_small_world(key_has_ttl: bool, kind: u8) {
+    let mut keys = shaped_keys(Shape { present: [true, false, false], ttl: [key_has_ttl, false, false] });
+    keys[0].weight = 50;
+    keys[0].e.soft_deleted = false;
+    let mut __qs = cek::vk_slots();
+    let w = vk_world(2, plain_lfu());
+    cek::vk_attach(&w.cache.command_executor, &mut __qs);
+    install(&w, 0, &keys[0]);
+    set_limits(&w, 1000, 50);
+    // the clock is before the key's expiry second (5000): the key is readable
+    let now = (4000u64, sup::any_nanos());
+    sup::set_now(now.0, now.1);
+    let value: Option<u64> = if kani::any() { Some(kani::any()) } else { None };
+    let weight: Option<Weight> = if kani::any() { let x: Weight = kani::any(); kani::assume(x >= 1 && x <= 900); Some(x) } else { None };
+    let t = (kani::any::<u64>(), sup::any_nanos());
+    kani::assume(t.0 <= (1u64 << 40));
+    let ttl: Option<Duration> = if kind == 1 { Some(Duration::new(t.0, t.1)) } else { None };
+    let remove = kind == 2;
+    kani::assume(value.is_some() || weight.is_some() || ttl.is_some() || remove);
+    let c = &w.cache;
+    let ack = hold(c.put_or_update(pouk::vk_request(101, value, weight, ttl, remove)));
+    let old = keys[0];
+    let mut exp = keys;
+    if let Some(x) = value { exp[0].e.value = x; }
+    exp[0].e.expiry = if remove { None } else if ttl.is_some() { Some(add_ttl(now, t)) } else { old.e.expiry };
+    // the expiry index shard of the new expiry is not concrete: compare store entry and index explicitly
+    let sv = sk::vk_peek(&c.store, &101).unwrap();
+    assert!(*sv.value_ref() == exp[0].e.value && sv.key_id() == 1 && sv.expire_after() == exp[0].e.expiry.map(|d| sup::time(d.0, d.1)), "C08: value and expiry change exactly as requested, the other is untouched");
+    assert!(exk::vk_find(&c.ttl_ticker, 1) == exp[0].e.expiry.map(|d| ((d.0 % 2) as usize, sup::time(d.0, d.1))) && exk::vk_count(&c.ttl_ticker, 1) == if exp[0].e.expiry.is_some() { 1 } else { 0 }, "C10: the expiry index follows the change (exactly one entry, in the shard of the current expiry)");
+    assert!(c.get(&101) == Some(exp[0].e.value), "C08: the change is visible as soon as the call returns");
+    let ttl_added = old.e.expiry.is_none() && exp[0].e.expiry.is_some();
+    let ttl_removed = old.e.expiry.is_some() && exp[0].e.expiry.is_none();
+    let exp_weight: Option<Weight> = match weight {
+        Some(x) => Some(x),
+        None => match value { Some(_) => Some(if ttl.is_some() { cfk::W_TTL } else { cfk::W_PLAIN }),
+                              None => if ttl_added { Some(50 + 24) } else if ttl_removed { Some(50 - 24) } else { None } } };
+    let qlen = cek::vk_queue_len(&c.command_executor);
+    match exp_weight {
+        None => assert!(qlen == 0 && status_of(&ack) == Poll::Ready(CommandStatus::Accepted), "C08: nothing to re-weigh: accepted on the spot, nothing queued"),
+        Some(x) => assert!(qlen == 1 && cek::vk_peek(&c.command_executor, 0) == Some(CmdView::UpdateWeight { id: 1, weight: x }), "C08: the queued weight update carries exactly the explicitly requested weight (else the recomputed / adjusted one) for the key's id"),
+    }
+    assert!(cwk::vk_entry(apk::vk_cw(&c.admission_policy), 1) == Some((101, cfk::vk_hash(&101), 50)) && c.total_weight_used() == 50, "C08: the charged weight changes only when the worker applies the update");
+    kani::cover!(weight.is_some() && value.is_some(), "explicit weight together with a new value");
+    kani::cover!(weight.is_none() && value.is_none() || kind == 0, "TTL-only request");
+    kani::cover!(true, "end reached");
     vs::edge_covers();
     core::mem::forget(w);
 }
@@ -903,6 +991,7 @@ fn sweep_end_to_end(with_stale: bool, tick_sec: u64) {
     vs::edge_covers();
     core::mem::forget(w);
 }
+
 
 
 
